@@ -43,7 +43,7 @@ func init() {
 			{Name: "shared trigger started under the first subscriber's own context", File: resolveGo, Rule: "C13-R6", Key: "Start-ctx",
 				Old: "context.WithCancel(xcontext.Detach(add.ctx.Context()))", New: "context.WithCancel(func() context.Context { _ = xcontext.Detach; return add.ctx.Context() }())"},
 			{Name: "start-up failure leaves the trigger registered", File: resolveGo, Rule: "C13-R6", Key: "Start-error-edge",
-				Old: "\t\t\tr.doneTriggerFromUpdater(triggerID)\n\t\t\treturn\n\t\t}\n\n\t\tr.markTriggerInitialized(triggerID)", New: "\t\t\treturn\n\t\t}\n\n\t\tr.markTriggerInitialized(triggerID)"},
+				Old: "\t\t\tr.doneTriggerFromUpdater(trig.updater)\n\t\t\treturn\n\t\t}\n\n\t\tr.markTriggerInitialized(trig)", New: "\t\t\treturn\n\t\t}\n\n\t\tr.markTriggerInitialized(trig)"},
 			{Name: "source sends Complete without Done", File: "v2/pkg/engine/datasource/graphql_datasource/graphql_subscription_client.go", Rule: "C13-R7", Key: "exit-after-terminal",
 				Old: "\t\t\tupdater.Complete()\n\t\t\tupdater.Done()", New: "\t\t\tupdater.Complete()"},
 			{Name: "shutdown drops the collected trigger cancels", File: resolveGo, Rule: "C13-R3", Key: "shutdownResolver",
